@@ -149,7 +149,7 @@ Proof.
     rewrite R2. cbn [bind].
     assert (Hh2 : top_hidden s2) by (eapply top_hidden_env; [symmetry; exact V2|exact Hh1]).
     destruct (lookup c s2 f) as [fv s3] eqn:El. rewrite (lookup_relab c L HL _ _ _ _ Hh2 El).
-    destruct fv as [[| | | | | | |mc cl| |g]|]; try exact He.
+    destruct fv as [[| | | | | | | |mc cl| |g]|]; try exact He.
     + apply call_macro_relab_err. exact He.
     + destruct (g =? N_range)%Z; [|exact He].
       destruct vs as [|[| | | |n| | | | |] [|? ?]]; try exact He. destruct kvs; [discriminate|exact He].
